@@ -9,6 +9,12 @@ hook_commits = [l.split()[0] for l in hooks if "verif hooks" in l]
 
 T = "machine-checked proof in Coq + model/implementation correspondence"
 CLAIMS = {
+ "C03": ("proof", "Coq theorems for every input and every final offset: Matched ++ RestInput = input, Matched is a white-space-trimmed prefix ending at or before the parser's offset, trimming is idempotent; the offset is tied to the PEG model of the regenerated grammar (K1). The positive half (text given back to RestInput contributes nothing) is REFUTED by a vm_compute witness on the parser model and recorded as a finding; outside the recorded call sites it is decided per input by a Go-vs-Go monitor (run the input, run Matched alone from the same seed and prior state: value, process text, variables, generator state, code)",
+         "trusted: Coq kernel+vm_compute, harness, translator for Gen/Grammar.v; Model/Matched.v hand-written (exact Matched/Rest correspondence); contribution-freedom is validated case by case, not proved", "DESIGN.md §6 C03"),
+ "C16": ("proof", "Coq theorem by reflection over the grammar and action table regenerated from /repo on every run: for EVERY byte string lacking the macro text `#EnableDice`, every setting of the other flags and every fuel, the PEG interpreter model emits no opcode of a disabled dice family and leaves the flag disabled; with DisableStmts set NO input can emit push.func/block.push/block.pop/ret or clear the flag. Generic soundness of the static gating analysis (memo replay, skip-code mode, non-rolled-back actions included) + side conditions gated(Gen.Grammar)=true by vm_compute; model tied by exact K1 correspondence; Config never written by Parse checked on the real parser",
+         "trusted: Coq kernel+vm_compute, harness, translator tools/gen_grammar.py (may-emit sets are over-approximations), Model/Peg.v hand-written and K1-validated; functions compiled under an earlier macro keep their dice (interpretation note)", "DESIGN.md §6 C16"),
+ "C19": ("proof", "Coq theorems for all inputs: every parser point is consistent (line/column bookkeeping of read), offset <= length, exact relation between the reported line:col and the plain line/column of the offset (they differ exactly at a newline byte — refuted-with-witness, recorded finding), the rendered text parses back to line, column, quoted line and caret, the message text is a function of the configured language column of the table only; table re-scraped from parser_errors.go every run; error-text correspondence on rejected inputs x 3 languages; concurrent VMs with different languages compared with isolated runs",
+         "trusted: Coq kernel+vm_compute, harness, regexp scraper of the message table; data-race freedom is evidence from the race detector (thorough tier), not a theorem; three recorded findings (newline position, six action messages, invalid-encoding message)", "DESIGN.md §6 C19"),
  "C04": ("proof", "Coq theorems for all parameters, all generator streams, all three modes: legality of every die, kept/dropped rule, exact totals, CoC min/max rule, Fate, WoD/DC round chains, injectivity of the displayed text (text determines the dice); model tied to roll_func.go by exact correspondence (totals, counters, detail text, generator state) and the game rule re-evaluated on the displayed text; VM-level rejection of illegal parameters by search",
          "trusted: Coq kernel+vm_compute, harness; sort.Slice assumed to sort; no-overflow hypotheses stated in the theorems; the DC sides>10 order dependence is a recorded finding", "DESIGN.md §6 C04"),
  "C05": ("proof", "Coq theorems (range, exact preimage count per face, fast-check soundness, acceptance > 1/2, first-accepted-word, PCG = 128-bit LCG) about a hand-written model of Roll/_roll64/PCGSource, tied to the code by exact result+state correspondence on engineered boundary states",
